@@ -48,7 +48,9 @@ func blockPool(f func(p *pspec)) pspec {
 // plainRound2: plans that need no instrumentation
 func plainRound2() []planT {
 	var out []planT
-	add := func(cancel string, w int, pools ...pspec) { out = append(out, planT{cancel: cancel, pools: pools, weight: w}) }
+	add := func(cancel string, w int, pools ...pspec) {
+		out = append(out, planT{cancel: cancel, pools: pools, weight: w})
+	}
 
 	// instances started over time; `inf`: the startup schedule never ends, so only running out of ammo (the await loop
 	// cancels the instance start), the end of the shared schedule, a failure or a cancel ends the run
@@ -221,7 +223,7 @@ func instrRound2(pts pointSet, r *rand.Rand, tier string) []planT {
 	all := append(append([]string(nil), eng...), mockPoints...)
 	nrand := 70
 	if thorough {
-		nrand = 4000
+		nrand = 500 // a hold on a point the plan never reaches costs holdMax
 	}
 	for i := 0; i < nrand && len(all) > 0; i++ {
 		pl := randomPlan(r)
@@ -244,7 +246,7 @@ func instrRound2(pts pointSet, r *rand.Rand, tier string) []planT {
 		if r.Intn(3) == 0 {
 			cancel = "at:" + all[r.Intn(len(all))]
 		}
-		add(cancel, extra, 3, pl.pools...)
+		add(cancel, extra, 7, pl.pools...)
 	}
 
 	// 4. through cli.runEngine + cli.awaitPandoraTermination: every kind of result, then signals
@@ -277,9 +279,9 @@ func instrRound2(pts pointSet, r *rand.Rand, tier string) []planT {
 	}
 	for i := 0; i < len(eng); i += stride {
 		sg := []string{"int", "term"}[i%2]
-		add("none", "cli="+sg+" sig="+eng[i], 3, blockPool(func(p *pspec) {}))
+		add("none", "cli="+sg+" sig="+eng[i], 7, blockPool(func(p *pspec) {}))
 		if thorough {
-			add("none", "cli="+sg+" sig="+eng[i], 3, planD)
+			add("none", "cli="+sg+" sig="+eng[i], 7, planD)
 		}
 	}
 	return out
